@@ -775,9 +775,7 @@ impl<'a> VisitMut for Rewriter<'a> {
                         // `Ctor` or `Enum::Variant` (every segment capitalised: a type path, not a function path)
                         let all_caps = p.path.segments.iter().all(|sg| sg.ident.to_string().chars().next().map(|c| c.is_ascii_uppercase()).unwrap_or(false));
                         let n = p.path.segments.last().unwrap().ident.to_string();
-                        // ... or an associated function of a type (`Type::cast`): `.filter_map(Substvar::cast)`
-                        let assoc_fn = p.path.segments.len() == 2 && p.path.segments[0].ident.to_string().chars().next().map(|c| c.is_ascii_uppercase()).unwrap_or(false);
-                        if (all_caps || assoc_fn) && n != "Some" && n != "Ok" && n != "Err" {
+                        if all_caps && n != "Some" && n != "Ok" && n != "Err" {
                             let path = &p.path;
                             rep = Some(parse_quote!(|__x| #path(__x)));
                         }
